@@ -8,6 +8,15 @@ Decides necessary structural conditions only (never value-level equality of what
                                    the enumerator name of protobuf_tags.hpp (the specification witness)
    pbf-reader-kind-matches-proto   case wire type + accessor (get_<k>, varint_range::next_<k>, nested pbf_message<M>) == proto type
    pbf-delta-agrees                value delta-coded on the writer side (DeltaEncode::update) <=> decoded through DeltaDecode::update
+   pbf-delta-width                 for every delta coded field the encoder's delta type and the decoder's delta and accumulator types are
+                                   signed and at least as wide as the proto field type (sint64 -> 64 bit); types are read off the
+                                   instantiated DeltaEncode/DeltaDecode::update signatures
+ order     osmium::io::Writer (pending buffer = its only osmium::memory::Buffer member; "flush" = a call that hands that member to
+           OutputFormat::write_buffer, directly, through a Buffer-forwarding helper, or via swap into a local)
+   writer-flush-before-foreign-buffer       a caller-supplied buffer is handed to the output only after a dominating flush of the pending one
+   writer-full-buffer-flushed-before-retry  in the buffer_is_full handler the flush precedes the second push_back
+   writer-pending-flushed-before-end        a flush dominates write_end()
+   writer-flush-entry-points                flush() flushes on every path; ensure_cleanup invokes its functor on every non-throwing path
  clause 2  writer-internal gates
    dense-column-gates-agree        each DenseNodes column is pushed (add_node) and serialised (serialize) under the same options
    dense-columns-parallel          each column gets exactly one push per node (variable-length tag column: 0 terminator)
@@ -1407,21 +1416,26 @@ def run(ctx):
         if tabs:
             gate_rules(fb, R, tabs[0])
             pbf_pairing_rules(fb, R, tabs[0], tabs[1])
+            delta_width_rules(fb, R, tabs[0], tabs[1])
+        writer_order_rules(fb, R)
         metadata_option_rules(fb, R)
         block_limit_rules(fb, R)
         block_switch_rules(fb, R)
         blob_framing_rules(fb, R)
         xml_rules(fb, R)
         opl_rules(fb, R)
-    # instance floors, each count confirmed by reading the pristine tree (the evidence file lists the instances).
-    # A row that one rule already reports as a violation (exit 1) can take instances of rules that compare rows with it; that must
-    # not turn the verdict into analysis-broken, so the floors are lowered by 4 per reported violation.
-    slack = 4 * sum(1 for i in R.instances.values() if not i.ok)
+    # instance floors, each count confirmed by reading the pristine tree (the evidence file lists the instances); a concrete
+    # violation outranks a missed floor in the engine, so no slack is needed when a mutated row takes derived instances with it
     floors = [
         ('pbf-emitted-field-decoded', 60),       # 61 distinct (message, field) emitted; Blob.lz4_data only with OSMIUM_WITH_LZ4
         ('pbf-writer-kind-matches-proto', 60),   # one per (field, writer function)
         ('pbf-reader-kind-matches-proto', 68),   # 69 consuming cases in 17 switches / next() loops (lz4 case as above)
         ('pbf-delta-agrees', 45),                # scalar and packed scalar fields x consuming decoder functions
+        ('pbf-delta-width', 25),                 # 11 delta coded fields on the writer side + 14 (field, decoder function) pairs
+        ('writer-flush-before-foreign-buffer', 1),       # Writer::operator()(Buffer&&)
+        ('writer-full-buffer-flushed-before-retry', 1),  # Writer::operator()(const Item&), buffer_is_full handler
+        ('writer-pending-flushed-before-end', 1),        # Writer::do_close
+        ('writer-flush-entry-points', 2),                # Writer::flush, Writer::ensure_cleanup
         ('dense-column-gates-agree', 10),        # the 10 vector members of DenseNodes
         ('dense-columns-parallel', 10),
         ('info-field-gated-by-own-option', 16),  # 6 Info + 6 DenseInfo fields, 3 Info + 1 DenseInfo containers
@@ -1438,13 +1452,18 @@ def run(ctx):
         ('axis-corner-agreement', 30),           # every lon/lat/x/y/left/right/top/bottom/min*/max* wire name
     ]
     for rule, n in floors:
-        R.expect(rule, max(1, n - slack))
+        R.expect(rule, n)
 
 
 def _st_codec(fb, R):
     tabs = pbf_table_rules(fb, R)
     if tabs:
         gate_rules(fb, R, tabs[0])
+        delta_width_rules(fb, R, tabs[0], tabs[1])
+
+
+def _st_writer(fb, R):
+    writer_order_rules(fb, R)
 
 
 def _st_block(fb, R):
@@ -1464,6 +1483,11 @@ SELFTESTS = [
     ('pbf-writer-kind-matches-proto', 'c01_codec.cpp', _st_codec),
     ('pbf-reader-kind-matches-proto', 'c01_codec.cpp', _st_codec),
     ('pbf-delta-agrees', 'c01_codec.cpp', _st_codec),
+    ('pbf-delta-width', 'c01_codec.cpp', _st_codec),
+    ('writer-flush-before-foreign-buffer', 'c01_writer.cpp', _st_writer),
+    ('writer-full-buffer-flushed-before-retry', 'c01_writer.cpp', _st_writer),
+    ('writer-pending-flushed-before-end', 'c01_writer.cpp', _st_writer),
+    ('writer-flush-entry-points', 'c01_writer.cpp', _st_writer),
     ('info-field-gated-by-own-option', 'c01_codec.cpp', _st_codec),
     ('dense-column-gates-agree', 'c01_codec.cpp', _st_codec),
     ('dense-columns-parallel', 'c01_codec.cpp', _st_codec),
